@@ -289,7 +289,8 @@ void run_impl(Toks in, Out& out, std::size_t cap)
             } else {
                 if constexpr (K == Kind::flat_set) {
                     if (code == "ih") {
-                        step.num(off(s, s.insert(s.cbegin() + a, k)));
+                        auto h = std::min(static_cast<std::size_t>(a), static_cast<std::size_t>(s.size())); // a valid hint
+                        step.num(off(s, s.insert(s.cbegin() + h, k)));
                     } else if (code == "asu") {
                         s = S(etl::sorted_unique, Container(ks.data(), ks.data() + ks.size()));
                     } else if (code == "rp") {
@@ -350,7 +351,7 @@ void run_ref(Toks in, Out& out, std::size_t cap)
         } else if (code == "ih") {
             auto h = static_cast<std::size_t>(in.num());
             int k  = static_cast<int>(in.num());
-            if (h > s.size()) { na = true; break; }
+            h = std::min(h, s.size()); // a valid hint
             auto it = s.find(k);
             if (it == s.end() && s.size() == cap) {
                 fired = true;
